@@ -122,6 +122,10 @@ func parseBitfieldOffset(spec string, width int) (offset int, valid bool) {
 			valid = false
 			return
 		}
+		if n < 0 {
+			valid = false
+			return
+		}
 		offset = int(n)
 	}
 	valid = true
